@@ -255,8 +255,9 @@ REG["C09"] = {
              "for unprintable content, `<text> (equal)` when the text ends like a modifier or looks like an exit code -- reads back through the expectation grammar (C08: line_parts, default registry) "
              "and the rule kinds (C04) as an unquantified expectation that matches exactly that output line, and is never taken for the exit code of the test.",
     "assumptions": [
-        "Escaper::escaped_expectation / has_unprintable are uninterpreted here (exp_text, esc_unp); axiom_exp_text restates what unit escaping proves (C11.ascii.lossless / C11.unicode.lossless) plus "
-        "'has_unprintable <=> the escaped form is written' (read from escaped_expectation_* / escaped_printable_*)",
+        "Escaper::escaped_expectation / has_unprintable are verified dispatchers over the four per-mode functions of unit escaping, imported with their contracts: the expectation text is a spec "
+        "function of the content (exp_text_ascii / exp_text_unicode; clauses C11.ascii.text, C11.unicode.text; the UTF-8 decoding is unique: vstd encode_utf8_decode_utf8) and has_unprintable_* decide "
+        "exactly which form is written (enc.hasunp, enc.hasunp.unicode, C11.*.form); lemma_exp_text is proved from them (no axiom left here)",
         "which Rule struct a kind name makes (registry) is read, not verified: equal -> EqualRule (text + LF), no-eol -> EqualNoEolRule (text), escaped -> EscapedRule (decoded expression, LF disregarded) "
         "with the matching semantics proved under C04; axiom_default_registry (equal, escaped, no-eol registered, names are plain words)",
         "rule.rs::ends_in_modifier (static regular expression) trusted as has_proper_mod; extract_exit_code (regex) uninterpreted with axiom_exit_code_shape (an accepted line ends in `]`)",
